@@ -111,6 +111,19 @@ class Ctx:
     # ---- evidence ---------------------------------------------------------------
     def finish(self):
         cov = self.coverage
+        # keys typed by EVIDENCE.schema.json must keep their types; anything else is renamed
+        for k in ("evaluations", "distinct_nontrivial", "states", "transitions", "traces_validated_against_impl",
+                  "obligations", "discharged", "programs", "disagreements_checked"):
+            if k in cov and not (isinstance(cov[k], int) and not isinstance(cov[k], bool)):
+                cov[k + "_detail"] = cov.pop(k)
+        for k in ("rule", "checker_cmd", "explanation"):
+            if k in cov and not isinstance(cov[k], str):
+                cov[k] = json.dumps(cov[k], default=str)
+        for k in ("samples", "trusted_base"):
+            if k in cov and not isinstance(cov[k], list):
+                cov[k] = [cov[k]]
+        if "exhaustive" in cov and not isinstance(cov["exhaustive"], bool):
+            cov["exhaustive_detail"] = cov.pop("exhaustive")
         ev = {
             "property_id": self.prop,
             "tier": self.tier,
